@@ -70,6 +70,11 @@ def float_eq(v, w, precision=None):
         if d >= 1e-6 * max(abs(w), abs(v)):
             return REJECT
         return DONTCARE
+    if max(abs(v), abs(w)) * 10.0 ** precision >= 2.0 ** 52:
+        # the numbers scaled by 10**precision are beyond the range in which floats still tell neighbouring integers
+        # apart: "equal at that precision" is not decidable in float arithmetic (8726269434780964.0 vs ...965.0 at
+        # precision 5) - left aside
+        return DONTCARE
     if d >= 2.5 * 10.0 ** -precision:
         return REJECT
     return DONTCARE
